@@ -65,6 +65,10 @@ Definition tw_close (s : tw) : tw * list cmd :=
   let '(s1, mv) := go_to s (tw_max s) in
   (s1, mv ++ [LF] ++ (if tw_hidden s then [ShowCur] else [])).
 
+(* WriteForLinef(line, format, args...) = WriteForLine(line, fmt.Sprintf(format, args...)) for
+   TermWriter, VirtualTerm and BufferedTerm alike: an update carries the formatted text (the
+   harness drives both entry points and computes the text with Go's fmt). *)
+
 (* a history of updates; one command segment per call *)
 Fixpoint tw_run (c : cfg) (s : tw) (ups : list (nat * text)) : tw * list (list cmd) :=
   match ups with
